@@ -91,6 +91,32 @@ def run(tier, seed):
     ok = bool(rc) and all(rc[0].id in FR.dom.get(r.id, ()) for r in rets)
     rep.add('RESET.reaches', 'decay0_generator', where(rs), 'every path of reset() passes through _reset_()', ok,
             None if ok else ['a return of reset() is reachable without calling _reset_()'])
+    generator_reset_complete(rep, prog)
+    typestate.reset_complete(rep, prog, 'bxdecay0::bbpars', 'bxdecay0::bbpars::reset', 'RESET.complete')
+    # dbd_gA and MDL operation
+    for cls, reset in (('bxdecay0::dbd_gA', 'bxdecay0::dbd_gA::reset'),
+                       ('bxdecay0::momentum_direction_lock_event_op', 'bxdecay0::momentum_direction_lock_event_op::reset')):
+        # the verbosity flags of the helper classes are logging settings, not generation state
+        typestate.reset_complete(rep, prog, cls, reset, 'RESET.complete', ignore=('_pimpl_', '_debug_', 'debug'))
+    # raii
+    bad = []
+    for key, fn in prog.functions.items():
+        if fn.get('cls', '').startswith(GEN):
+            for n_ in astu.walk(fn['body']):
+                if n_['k'] == 'Bin' and n_['op'] == '=' and n_['b'].get('k') == 'New' and n_['a'].get('k') == 'Member':
+                    bad.append((fn, n_['l']))
+    rep.add('OWNERSHIP.raii', 'decay0_generator', where(prog.records[GEN]), 'no member of decay0_generator receives a raw new-expression',
+            not bad, None if not bad else ['raw new stored at %s:%d' % (bad[0][0]['name'], bad[0][1])])
+    rep.floor('RESET.complete', sum(1 for i in rep.instances if i.rule == 'RESET.complete'), 40)
+    rep.assumptions += ['decided: guards, ordering, refusal of incomplete configurations, reset completeness (write sets)',
+                        'not decided: that re-configuring after reset yields the same events as a fresh instance (follows '
+                        'structurally from reset completeness + C07, not demonstrated)']
+    # a failed or earlier initialisation must leave nothing behind that the next one consults
+    initstate.def_before_use(rep, prog)
+    return rep
+
+def generator_reset_complete(rep, prog, ignore=()):
+    """RESET.complete for decay0_generator and its private implementation (shared with C07)"""
     # reset completeness: generator members and pimpl members
     rec = prog.records[GEN]
     written = {}
@@ -107,7 +133,7 @@ def run(tier, seed):
             if c['callee'].get('cls') == GEN:
                 st_.extend(prog.fns(c['callee']['qn']))
     for f in rec['fields']:
-        if f['name'] in ('_pimpl_',):
+        if f['name'] in ('_pimpl_',) or f['name'] in ignore:
             continue
         ok = f['name'] in written
         rep.add('RESET.complete', 'decay0_generator::' + f['name'], where({'file': rec['file'], 'l': f['l']}),
@@ -116,29 +142,20 @@ def run(tier, seed):
     prec = prog.records.get(GEN + '::pimpl_type')
     if prec is None:
         raise AnalysisBroken('pimpl_type not found')
+    # the private implementation may also be replaced as a whole: `_pimpl_.reset(new pimpl_type)` restores every field that has a
+    # default member initialiser or is of class type (its own default constructor runs)
+    recreated = False
+    for fn in list(prog.fns(GEN + '::_reset_')) + list(prog.fns(GEN + '::reset')):
+        for c in astu.calls(fn['body']):
+            if c['k'] == 'MCall' and c['callee']['qn'].endswith('::reset') and 'unique_ptr' in c['callee']['qn'] and \
+                    astu.src(c['obj']).endswith('_pimpl_') and c.get('args') and \
+                    any(x['k'] == 'New' and 'pimpl_type' in str(x.get('ty', '')) + str(x.get('init', {}).get('ty', ''))
+                        for x in astu.walk(c['args'][0])):
+                recreated = True
+    scalar = ('int', 'bool', 'double', 'float', 'size_t', 'std::size_t', 'unsigned int', 'long', 'unsigned long', 'char')
     for f in prec['fields']:
         ok = ('_pimpl_.' + f['name']) in written
+        if not ok and recreated:
+            ok = 'init' in f or (f.get('ty', '').replace('const ', '').strip() not in scalar and not f.get('ty', '').strip().endswith('*'))
         rep.add('RESET.complete', 'pimpl::' + f['name'], where({'file': prec['file'], 'l': f['l']}),
                 'reset() restores the private field %s' % f['name'], ok)
-    typestate.reset_complete(rep, prog, 'bxdecay0::bbpars', 'bxdecay0::bbpars::reset', 'RESET.complete')
-    # dbd_gA and MDL operation
-    for cls, reset in (('bxdecay0::dbd_gA', 'bxdecay0::dbd_gA::reset'),
-                       ('bxdecay0::momentum_direction_lock_event_op', 'bxdecay0::momentum_direction_lock_event_op::reset')):
-        # the verbosity flags of the helper classes are logging settings, not generation state
-        typestate.reset_complete(rep, prog, cls, reset, 'RESET.complete', ignore=('_pimpl_', '_debug_', 'debug'))
-    # raii
-    bad = []
-    for key, fn in prog.functions.items():
-        if fn.get('cls', '').startswith(GEN):
-            for n_ in astu.walk(fn['body']):
-                if n_['k'] == 'Bin' and n_['op'] == '=' and n_['b'].get('k') == 'New' and n_['a'].get('k') == 'Member':
-                    bad.append((fn, n_['l']))
-    rep.add('OWNERSHIP.raii', 'decay0_generator', where(rec), 'no member of decay0_generator receives a raw new-expression',
-            not bad, None if not bad else ['raw new stored at %s:%d' % (bad[0][0]['name'], bad[0][1])])
-    rep.floor('RESET.complete', sum(1 for i in rep.instances if i.rule == 'RESET.complete'), 40)
-    rep.assumptions += ['decided: guards, ordering, refusal of incomplete configurations, reset completeness (write sets)',
-                        'not decided: that re-configuring after reset yields the same events as a fresh instance (follows '
-                        'structurally from reset completeness + C07, not demonstrated)']
-    # a failed or earlier initialisation must leave nothing behind that the next one consults
-    initstate.def_before_use(rep, prog)
-    return rep
